@@ -172,7 +172,7 @@ pub fn scenarios(tier: Tier) -> Vec<LinkScenario<fn() -> Box<dyn Probe>>> {
     let r = 300u64;
     let alphabet = [r / 3, r / 2, r, 3 * r / 2];
     let ws = words(&alphabet, tier.pick(2, 4));
-    let scripts: Vec<(&str, Vec<usize>)> = vec![("1", vec![1]), ("1+1", vec![1, 1]), ("2401", vec![2401]), ("1+2401", vec![1, 2401])];
+    let scripts: Vec<(&str, Vec<usize>)> = vec![("1", vec![1]), ("1+1", vec![1, 1]), ("2401", vec![2401]), ("1+2401", vec![1, 2401]), ("500+500+500", vec![500, 500, 500])];
     let mut out: Vec<LinkScenario<fn() -> Box<dyn Probe>>> = vec![];
     let chans = || vec![Chan::new(0, Kind::Ordered, 100_000, r), Chan::new(1, Kind::Unordered, 100_000, 2 * r)];
     for (wi, w) in ws.iter().enumerate() {
